@@ -313,6 +313,40 @@ Proof.
   - apply Hk; [exact Hpos|now apply Hb|]. unfold responds in Hra. apply andb_true_iff in Hra. tauto.
 Qed.
 
+Lemma responds_put nt w key c : responds nt c = true -> responds (fst (put nt w key)) c = true.
+Proof.
+  intros Hc. destruct (put_keeps nt w key c (responds_lt nt c Hc)) as (Fa & Fs & _).
+  unfold responds in *. now rewrite Fa, Fs.
+Qed.
+
+Lemma main_put nt w key r x : mem x (n_main (get nt r)) = true -> mem x (n_main (get (fst (put nt w key)) r)) = true.
+Proof.
+  intros Hx. destruct (Nat.lt_ge_cases r (length nt)) as [Hr|Hr].
+  - destruct (put_keeps nt w key r Hr) as (_ & _ & Fm & _). now apply Fm.
+  - unfold get in Hx. rewrite nth_overflow in Hx by lia. discriminate.
+Qed.
+
+(* C01 in a strongly connected network: whoever knows one responding node writes successfully, and whoever knows one
+   responding node reads the value afterwards - provided some responding node other than the writer and the reader
+   exists to hold it *)
+Theorem put_then_get_strongly_connected nt w r key dw dr c :
+  strongly_connected nt ->
+  mem dw (n_main (get nt w)) = true -> responds nt dw = true ->
+  mem dr (n_main (get nt r)) = true -> responds nt dr = true ->
+  responds nt c = true -> c <> w -> c <> r ->
+  snd (put nt w key) = true /\ get_finds (fst (put nt w key)) r key = true.
+Proof.
+  intros Hsc Hdw Hrdw Hdr Hrdr Hc Hcw Hcr.
+  destruct (put_stores_reaches nt w key dw c Hdw (Hsc dw c Hrdw Hc) Hc Hcw) as (Hst & Hok).
+  split; [exact Hok|].
+  apply (get_finds_reaches _ r key dr c).
+  - now apply main_put.
+  - apply reaches_put. now apply Hsc.
+  - now apply responds_put.
+  - exact Hcr.
+  - exact Hst.
+Qed.
+
 (* non-vacuity of the history statement: two servers and a client joined through the first node, a lookup *)
 Example strongly_connected_nonvacuous :
   let evs := [EJoin true [0]; EJoin true [0]; EJoin false [1]; ELookup 2 true] in
